@@ -39,13 +39,14 @@ theorem C12_direct_declared (pre post : List Decl) (d : Decl) (ps : Prices)
   C12_direct _ ps d.target d.commodity d.price h hne
     (latest_of_last pre post d d.target d.commodity ⟨rfl, rfl⟩ (fun e => hne e.symm) hpost)
 
-/-- … and declared the other way round (`price v p c`), `c` gets the reciprocal
-`Truncate(8)(Div(1, p))` (times 1, cut to 8 decimals again). -/
+/-- … and declared the other way round (`price v p c`), `c` gets exactly the reciprocal
+`Truncate(8)(Div(1, p))`. -/
 theorem C12_direct_reciprocal (pre post : List Decl) (d : Decl) (ps : Prices)
     (h : insertAll [] (pre ++ d :: post) = some ps) (hne : d.commodity ≠ d.target)
     (hpost : ∀ d' ∈ post, ¬ mentions d' d.commodity d.target) :
-    find d.target (normalize ps d.commodity) = some (multiply (recip d.price) 1) :=
-  C12_direct _ ps d.commodity d.target (recip d.price) h (fun e => hne e.symm)
+    find d.target (normalize ps d.commodity) = some (recip d.price) := by
+  rw [← multiply_recip_one]
+  exact C12_direct _ ps d.commodity d.target (recip d.price) h (fun e => hne e.symm)
     (latest_of_last_rev pre post d d.commodity d.target ⟨rfl, rfl⟩ hpost)
 
 /- Full statement of the property's second clause: "the price is the most recent declared price
@@ -60,6 +61,12 @@ theorem C12_direct_exact_partial (decls : List Decl) (ps : Prices) (v c : Commod
     (h8 : trunc 8 p = p) : find c (normalize ps v) = some p := by
   rw [C12_direct decls ps v c p h hcv hl]
   simp [multiply, multiplyPlaces, Rat.mul_one, h8]
+
+/-- in particular for every declared price with at most 8 decimals (`p = k / 10^8`). -/
+theorem C12_direct_exact_8_decimals_partial (decls : List Decl) (ps : Prices) (v c : Commodity) (k : Int)
+    (h : insertAll [] decls = some ps) (hcv : c ≠ v) (hl : latest decls v c = some (mkRat k (10 ^ 8))) :
+    find c (normalize ps v) = some (mkRat k (10 ^ 8)) :=
+  C12_direct_exact_partial decls ps v c _ h hcv hl (trunc_mkRat 8 k)
 
 /-- **chain**: any price returned is the fold of `Multiply` along a chain of latest declared prices
 starting at `v` (price 1); the chain is simple (no commodity twice). -/
@@ -171,6 +178,18 @@ theorem C12_day (v : Commodity) (days : List Day) (out : List (Int × Option NPr
       out[i]? = some (days[i].date, if declsUpTo days i = [] then none else some (normalize ps v)) := by
   have := (computePrices_spec v days {} [] out rfl rfl h).2 i hi
   simpa using this
+
+/-- **journal order**: `journal.Builder` turns the dated directives of a journal (in file order) into days
+with strictly ascending dates, one for every date that occurs, each holding the price declarations
+of its date in file order.  Together with `C12_day`: the table of a day is `Normalize` of all
+declarations dated up to that day, inserted day by day, in file order within a day — so "latest"
+is the last declaration of the pair in that order. -/
+theorem C12_journal_order (ds : List (Int × Option Decl)) :
+    (dayDates (buildDays ds)).Pairwise (· < ·) ∧
+    (∀ d, d ∈ dayDates (buildDays ds) ↔ ∃ e ∈ ds, e.1 = d) ∧
+    (∀ day ∈ buildDays ds, day.prices = pricesOn ds day.date) :=
+  let h := buildDays_inv ds
+  ⟨h.sorted, h.dates, h.prices⟩
 
 /-- the traversal terminates for every price map: the loop is a well-founded recursion on
 `unvisited + queue length`, which every pass decreases (recorded here as the fact that justifies it). -/
